@@ -546,3 +546,15 @@ Example wf_nonvacuous :
   let ops := [OMin 0 1 (0, 10)%Z false; OMin 2 3 (10, 10)%Z false; OAdd 0 (0, 5)%Z; OSwap 1 2; OMax 2 1 (5, 0)%Z] in
   valid_trace init ops /\ exists s, run init ops = Some s.
 Proof. cbv zeta. split; [cbn; repeat split; reflexivity|eexists; vm_compute; reflexivity]. Qed.
+
+(* when the sweep is over (no Active points to an OutRec any more) every OutRec that holds points is a closed,
+   non-empty ring: no contour is left open *)
+Theorem all_rings_closed s : wf s -> (forall e, eo s e = None) ->
+  forall i o, nth_error (recs s) i = Some o ->
+  match pts o with Some D => D <> [] /\ fe o = None /\ be o = None | None => fe o = None /\ be o = None end.
+Proof.
+  intros [W1 _] Hcold i o N. specialize (W1 i o N). unfold rec_ok in W1.
+  destruct (pts o) as [D|]; [|exact W1].
+  destruct W1 as [HD [[F B] | (a & b & _ & _ & _ & Ea & _)]]; [auto|].
+  rewrite Hcold in Ea. discriminate.
+Qed.
